@@ -522,8 +522,8 @@ Definition load_members (d : list (string * pv)) : res (list (string * tree)) :=
   else Err EUnmodelled.
 
 (* -- object loaders *)
+(* the file path is read and converted first (a32a9db), then Module(name=obj_dict["name"], ...) is evaluated *)
 Definition load_module (d : list (string * pv)) : res pv :=
-  let! n := getitem "name" d in
   let! fp := getitem "filepath" d in
   let! fp' := (match fp with
                | PStr s => Ok (FPStr s)
@@ -532,6 +532,7 @@ Definition load_module (d : list (string * pv)) : res pv :=
                | PNum _ => Err EType | PBool _ => Err EType                     (* Path(1) *)
                | _ => Err EUnmodelled
                end) in
+  let! n := getitem "name" d in
   let! doc := load_docstring d in
   let! n' := as_string n in
   let! ms := load_members d in
